@@ -112,6 +112,9 @@ for (const s of job.structs) {
                 st.calls.length = 0; st.allocs.length = 0;
                 st.hooks[fname] = (args) => {
                     const p = args[0];
+                    // for the first struct of a job the callee also grows the wasm memory (as an allocation inside Rust may):
+                    // every view taken before the call is detached, the bindings have to look at wasm.memory.buffer afresh
+                    if (s === job.structs[0]) { wasm.memory.grow(1); rec.grew = true; }
                     rec.ptr_is_alloc = st.allocs.some((a) => a.ptr === p);
                     const pay = Buffer.from(flag ? w.ok_hex : w.err_hex, "hex");
                     new Uint8Array(wasm.memory.buffer, p, pay.length).set(pay);
